@@ -4,7 +4,12 @@ from contracts import message, specs
 
 ID = "C33"
 L = "lemmas.c33."
-TARGETS = [L + "roundtrip_scalars", L + "roundtrip_extended", L + "decodes_are_independent"]
+M = "paramiko.message.Message."
+# the Message methods _pack/_unpack go through are verified here too (same contracts as C39), so that a change to
+# one of them is decided by this check and not only by its sibling (seed C33-c)
+TARGETS = [M + n for n in ("add_int", "add_int64", "add_string", "get_bytes", "get_int", "get_int64", "get_string",
+                           "get_remainder")] + \
+          [L + "roundtrip_scalars", L + "roundtrip_extended", L + "decodes_are_independent"]
 REPLAY = {"*": "c33.replay_roundtrip", "decodes_are_independent": "c33.decodes_are_independent"}
 MAX_PATHS = 20000
 
@@ -34,6 +39,7 @@ LEVEL_TEXT = ("Proof by symbolic execution of the real _pack and _unpack bodies 
               "(or built) after one carrying extended attributes has none of them and re-encodes none (lemma program with "
               "two decodes in a row - each object owns its map).")
 LEVEL_NOTE = ("Extended-attribute maps are covered for sizes 0, 1 and 2 only (bounded in the number of entries, unbounded in "
-              "their contents); st_atime/st_mtime are taken as integers (int(float) truncation is CPython's); Message "
-              "methods are used through their C39 contracts; dict iteration order = insertion order.")
+              "their contents); st_atime/st_mtime are taken as integers (int(float) truncation is CPython's); the Message "
+              "methods _pack/_unpack use carry the C39 contracts and are verified against their real bodies in this check as "
+              "well; dict iteration order = insertion order.")
 TECHNIQUE = "deductive: lemma program executing the real _pack/_unpack AST against Message contracts, z3"
